@@ -11,6 +11,9 @@ Added after the second and third seeding rounds:
   backjump-cannot-go-below-starting-level  the decision loop is told the run's starting level, or run_sat compares the level it
                      gets back with it - fails on the current tree: known finding D15
   encoding / new-solvables / assertions / soft-solvables-registered  the C01 / C09 / C15 rules apply unchanged to soft runs
+
+Added after the fifth seeding round:
+  core           all rules of C01 and C02 (rules/core.py), incl. result-must-use: an interrupted soft run is not a solution
 """
 from common import *
 import q, enc, c02, c04
